@@ -4,15 +4,19 @@ package main
 //
 // Real code exercised: messages.Encrypted.Serialize, messages.DeserializeEncrypted,
 // messages.Unencrypted.Serialize, messages.DeserializeUnencrypted, ige.MessageKey, utils.AuthKeyHash,
-// generateAESIGE (through the verif hook). Oracle: the specification's server of x_envelope.go
+// generateAESIGE (through the verif hook), transport.ReadMsg over a loopback connection (c03.route /
+// c03.uroute: the server's packet as the client really receives it, after the framing layer and with the
+// transport's own look at the msg_id). Oracle: the specification's server of x_envelope.go
 // (envOpen direction 0 judges what the client sealed; envSeal direction 8 produces what the client
-// must open).
+// must open). c03.par: several clients of one process sealing and opening at the same time, every packet
+// judged by the same server (calls must not disturb one another: the property is per call).
 
 import (
 	"bytes"
 	"encoding/binary"
 	"fmt"
 	"strings"
+	"sync"
 
 	ige "github.com/xelaj/mtproto/internal/aes_ige"
 	"github.com/xelaj/mtproto/internal/mtproto/messages"
@@ -104,6 +108,27 @@ func c03Exec1(op []string) string {
 		got := envOfEncrypted(e)
 		c03Remember(op, got.Body)
 		return "pkt=" + showBytes(pkt) + " " + envShowMsg(got)
+	case "c03.route":
+		// the same server packet as c03.open, but delivered the way a client gets it: one frame over a
+		// (loopback) connection, read by the real transport.ReadMsg
+		if len(op) != 8 {
+			return "bad-op"
+		}
+		key := envTok(op[1])
+		m := c03OpMsg(op)
+		m.Body = envTok(op[6])
+		return envRoute(key, envSeal(8, key, m, envTok(op[7])))
+	case "c03.uroute":
+		// an unencrypted (key exchange) answer through transport.ReadMsg
+		if len(op) != 3 {
+			return "bad-op"
+		}
+		return envRoute(nil, c03SpecUnenc(envU64(op[1]), envTok(op[2])))
+	case "c03.par":
+		if len(op) != 5 {
+			return "bad-op"
+		}
+		return c03Par(atoi(op[1]), atoi(op[2]), envU64(op[3]), atoi(op[4]))
 	case "c03.kdf":
 		k, iv := ige.VerifGenerateAESIGE(envTok(op[2]), envTok(op[3]), op[1] == "8")
 		return fmt.Sprintf("key=%s iv=%s", hexD(k), hexD(iv))
@@ -128,6 +153,96 @@ func c03Exec1(op []string) string {
 		return c03Unenc(b)
 	}
 	return "bad-op"
+}
+
+// c03Par: `workers` clients of one process, each with its own auth key, salt, session and message
+// stream, working at the same time for `rounds` messages each: three of four messages are sealed by the
+// real Encrypted.Serialize and opened by the specification's server (direction 0), the fourth is sealed by
+// that server (direction 8) and opened by the real DeserializeEncrypted. The line is the same for every
+// schedule when each call does what the property says ("par ok …"); otherwise it names the first packet
+// that did not come out as it went in.
+func c03Par(workers, rounds int, seed uint64, maxLen int) string {
+	if workers < 1 || rounds < 1 || maxLen < 0 {
+		return "bad-op"
+	}
+	var mu sync.Mutex
+	first := ""
+	fail := func(w, i int, dir string, n int, why string) {
+		mu.Lock()
+		if first == "" {
+			first = fmt.Sprintf("par bad: client %d of %d, message %d (%s, body %d bytes): %s", w, workers, i, dir, n, why)
+		}
+		mu.Unlock()
+	}
+	failed := func() bool { mu.Lock(); defer mu.Unlock(); return first != "" }
+	start := make(chan struct{})
+	var wg sync.WaitGroup
+	for w := 0; w < workers; w++ {
+		wg.Add(1)
+		go func(w int) {
+			defer wg.Done()
+			i, n, dir := 0, 0, "seal"
+			defer func() {
+				if r := recover(); r != nil {
+					fail(w, i, dir, n, fmt.Sprintf("panic:%s (%v)", panicSite(), r))
+				}
+			}()
+			r := NewRand(seed ^ uint64(w+1)*0x9E3779B97F4A7C15)
+			key := envLCG(256, r.U64())
+			salt, sid := r.U64(), r.U64()
+			<-start
+			for i = 0; i < rounds && !failed(); i++ {
+				n = r.Intn(257)
+				if r.Intn(2) == 0 {
+					n = r.Intn(maxLen + 1)
+				}
+				body := envLCG(n, r.U64())
+				sent := append([]byte{}, body...)
+				want := envMsg{Salt: salt, Sid: sid, Mid: c03U64(&G{R: r}), Seq: uint32(c03Seq(&G{R: r})), Body: sent}
+				if i%4 == 3 {
+					dir = "server to client"
+					want.Mid = want.Mid&^3 | uint64(r.Pick(1, 3))
+					pkt := envSeal(8, key, want, r.Bytes((16-(32+n)%16)%16))
+					e, err := messages.DeserializeEncrypted(append([]byte{}, pkt...), key)
+					if err != nil {
+						fail(w, i, dir, n, "the packet of a conformant server is refused: "+envOpenErr(err))
+						return
+					}
+					if got := envOfEncrypted(e); envShowMsg(got) != envShowMsg(want) || !bytes.Equal(got.Body, sent) {
+						fail(w, i, dir, n, "opened to "+envShowMsg(got)+", the server sealed "+envShowMsg(want))
+						return
+					}
+					continue
+				}
+				dir = "client to server"
+				ack := r.Bool()
+				pkt, err := (&messages.Encrypted{Msg: body, MsgID: int64(want.Mid)}).Serialize(
+					envInformator{salt: int64(salt), sid: int64(sid), seq: int32(want.Seq), key: key}, ack)
+				if err != nil {
+					fail(w, i, dir, n, "sealing failed: "+err.Error())
+					return
+				}
+				if ack {
+					want.Seq |= 1
+				}
+				got, why := envOpen(0, key, pkt, true)
+				if why != "" {
+					fail(w, i, dir, n, "a conformant server refuses the packet: "+why)
+					return
+				}
+				if envShowMsg(got) != envShowMsg(want) || !bytes.Equal(got.Body, sent) {
+					fail(w, i, dir, n, "a conformant server recovers "+envShowMsg(got)+", sealed was "+envShowMsg(want))
+					return
+				}
+			}
+		}(w)
+	}
+	close(start)
+	wg.Wait()
+	if first != "" {
+		return first
+	}
+	return fmt.Sprintf("par ok clients=%d messages=%d", workers, workers*rounds)
 }
 
 func c03SpecUnenc(mid uint64, body []byte) []byte {
@@ -203,6 +318,49 @@ func c03Judge(op []string, out string) string {
 		}
 		if b := last(); b != nil && !bytes.Equal(b, body) {
 			return "body differs from the sealed body"
+		}
+	case "c03.route":
+		key, body, pad := envTok(op[1]), envTok(op[6]), envTok(op[7])
+		if strings.Contains(out, "panic:") {
+			return "receiving a server-sealed packet panics: " + clip(out)
+		}
+		if strings.HasPrefix(out, "dial-error") || strings.HasPrefix(out, "err:transport") {
+			return "loopback transport failed: " + clip(out)
+		}
+		if len(key) != 256 || len(pad) >= 16 {
+			return ""
+		}
+		want := c03OpMsg(op)
+		if want.Mid%4 != 1 && want.Mid%4 != 3 {
+			if strings.HasPrefix(out, "enc ") || strings.HasPrefix(out, "unenc ") {
+				return "a msg_id without server parity was accepted by ReadMsg"
+			}
+			return ""
+		}
+		want.Body = body
+		if out != "enc "+envShowMsg(want) {
+			return "the packet a conformant server sealed does not come out of transport.ReadMsg with its content: want enc " + clip(envShowMsg(want))
+		}
+	case "c03.uroute":
+		mid, body := envU64(op[1]), envTok(op[2])
+		if strings.Contains(out, "panic:") {
+			return "receiving an unencrypted server message panics: " + clip(out)
+		}
+		if strings.HasPrefix(out, "dial-error") || strings.HasPrefix(out, "err:transport") {
+			return "loopback transport failed: " + clip(out)
+		}
+		if mid%4 != 1 && mid%4 != 3 {
+			if strings.HasPrefix(out, "enc ") || strings.HasPrefix(out, "unenc ") {
+				return "an unencrypted msg_id without server parity was accepted by ReadMsg"
+			}
+			return ""
+		}
+		if exp := fmt.Sprintf("unenc mid=%d body=%s", mid, showBytes(body)); out != exp {
+			return "the unencrypted message of a conformant server does not come out of transport.ReadMsg: want " + exp
+		}
+	case "c03.par":
+		if !strings.HasPrefix(out, "par ok ") {
+			return "clients of one process working at the same time disturb one another: " + clip(out)
 		}
 	case "c03.kdf":
 		x := 0
@@ -360,6 +518,27 @@ func c03Gen(g *G) {
 	for _, v := range c03U32Edge {
 		g.Emit(fmt.Sprintf("c03.open %s 1 1 5 %d %s %s", c03KeyTok(g), v, "01020304", c03PadFor(g, 4)), "open-edge", "edge=seq")
 	}
+	// (b2) the server's packets as the client receives them (transport.ReadMsg over a loopback connection):
+	// msg_ids over the whole 64-bit range — every boundary value with both server parities, and without —
+	// and random ones; encrypted and unencrypted
+	for _, v := range c03U64Edge {
+		for _, par := range []uint64{1, 3, uint64(r.Pick(0, 2))} {
+			mid := v&^3 | par
+			l := r.Intn(40)
+			g.Emit(fmt.Sprintf("c03.route %s %d %d %d %d %s %s", c03KeyTok(g), c03U64(g), c03U64(g), mid, c03Seq(g), c03BodyTok(g, l), c03PadFor(g, l)),
+				"route", "edge=mid", fmt.Sprintf("route-mid-top-bit=%d", mid>>63), fmt.Sprintf("route-parity=%d", par))
+			g.Emit(fmt.Sprintf("c03.uroute %d %s", mid, c03BodyTok(g, 1+r.Intn(40))),
+				"uroute", "edge=mid", fmt.Sprintf("uroute-mid-top-bit=%d", mid>>63))
+		}
+	}
+	for i := 0; i < g.N(60, 600); i++ {
+		l := r.Intn(600)
+		mid := c03ServerMid(g)
+		g.Emit(fmt.Sprintf("c03.route %s %d %d %d %d %s %s", c03KeyTok(g), c03U64(g), c03U64(g), mid, c03Seq(g), c03BodyTok(g, l), c03PadFor(g, l)),
+			"route", "random", fmt.Sprintf("route-mid-top-bit=%d", mid>>63))
+		mid = c03ServerMid(g)
+		g.Emit(fmt.Sprintf("c03.uroute %d %s", mid, c03BodyTok(g, 1+r.Intn(300))), "uroute", "random", fmt.Sprintf("uroute-mid-top-bit=%d", mid>>63))
+	}
 	// special keys; padding of 16 and more bytes (not conformant; model and code must still agree)
 	for _, k := range []string{"z256", "p256"} {
 		g.Emit(fmt.Sprintf("c03.seal %s 0 0 0 0 0 -", k), "seal-edge", "edge=key")
@@ -378,6 +557,10 @@ func c03Gen(g *G) {
 			l = r.Intn(20000)
 		}
 		c03EmitLen(g, l, "random")
+	}
+	// (b3) several clients in one process at the same time: 2, a handful, many
+	for _, wr := range [][2]int{{2, g.N(240, 2000)}, {8, g.N(80, 600)}, {32, g.N(24, 200)}} {
+		g.Emit(fmt.Sprintf("c03.par %d %d %d 65536", wr[0], wr[1], r.U64()>>1), "concurrent", fmt.Sprintf("concurrent-clients=%d", wr[0]))
 	}
 	// (c) the key schedule on its own, both directions; keys around the lengths the schedule reads
 	for i := 0; i < g.N(40, 600); i++ {
@@ -423,8 +606,9 @@ func c03Gen(g *G) {
 
 func init() {
 	register(&Prop{Name: "c03", Stateless: true, Gen: c03Gen, Exec: c03Exec, Judge: c03Judge,
-		Setup: func(g *G) { c03G = g },
+		Setup: func(g *G) { c03G = g; envListen() },
 		Teardown: func() {
+			envUnlisten()
 			kinds := map[string]interface{}{}
 			for k, v := range c03Kinds {
 				kinds[k] = v
